@@ -67,7 +67,7 @@ def check_target(sysb, props):
     return w, v
 
 
-def check_status_relation(sysb, higher, own_bounds=None):
+def check_status_relation(sysb, higher, own_bounds=None, tie=None):
     """higher: bounds-only proposals of priority 3 and 2; actor 'c' has priority 1."""
     slo, shi, el, eu = sysb
     v = []
@@ -77,6 +77,9 @@ def check_status_relation(sysb, higher, own_bounds=None):
         if own_bounds is not None:
             # the asking actor's own earlier proposal (bounds only) must not narrow what is reported to it
             m.calculate_target_power(IDS, prop("c", 1, None, own_bounds[0], own_bounds[1]), S)
+        if tie is not None:
+            # another actor with the asker's priority (ties are ordered by source id) that only sets bounds
+            m.calculate_target_power(IDS, prop(tie[0], 1, None, tie[1], tie[2]), S)
         rep = m.get_status(IDS, 1, S)
         L, U = rep.bounds.lower.as_watts(), rep.bounds.upper.as_watts()
         m.calculate_target_power(IDS, prop("c", 1, x, None, None), S)
@@ -160,6 +163,16 @@ def shard(args) -> Acc:
             n2, viol2 = check_status_relation(sysb, hp, own_bounds=(-50, 50))
             n += n2
             viol = viol + [(c, dict(d, own_earlier_bounds=[-50, 50])) for c, d in viol2]
+            # equal-priority actors: one sorting before the asker ("a0" < "c"), one after ("d" > "c")
+            for tie in (("a0", -50, 50), ("d", -50, 50)):
+                if ref.ref_target(sysb, hp + [(1, tie[0], None, tie[1], tie[2]), (1, "c", 5, None, None)]) is None:
+                    continue
+                n3, viol3 = check_status_relation(sysb, hp, tie=tie)
+                n += n3
+                cls = ("same-priority-actor-with-greater-source-id-has-bounds",) if tie[0] > "c" else ()
+                for c, d in viol3:
+                    acc.violation(Violation(c, {"driver": "status", "system": list(sysb), "higher": hp, "tie": list(tie)},
+                                            dict(d, same_priority_actor=list(tie)), cls))
             acc.evaluations += n
             acc.traces += 1
             acc.transitions += n
@@ -208,6 +221,9 @@ def replay(case: dict):
         _, v = check_target(sysb, props)
         return v
     hp = [tuple(p) for p in case["higher"]]
+    if case.get("tie"):
+        _, v = check_status_relation(sysb, hp, tie=tuple(case["tie"]))
+        return [(c, dict(d, same_priority_actor=case["tie"])) for c, d in v]
     _, v = check_status_relation(sysb, hp)
     _, v2 = check_status_relation(sysb, hp, own_bounds=(-50, 50))
     return v + [(c, dict(d, own_earlier_bounds=[-50, 50])) for c, d in v2]
